@@ -10,6 +10,28 @@ Permanent cases: the example of the documentation (Platform_routing.rst) and thr
 routes.  Rejections explained by a recorded defect (KNOWN_FINDINGS.jsonl) are decided with TLC too (flags of the expected
 behaviours, acceptance by the machine with the known deviation switched on).
 
+Bypass lookup (Hier!Expand, R.gen_bypass_depths).  The candidates are: a bypass declared by the lowest common ancestor for
+the two end points themselves (documentation: "between any hosts, even if they are not in the same zone"), then every
+pair (zone on the path of the source, zone on the path of the destination) below the common ancestor, at whatever depths.
+When several apply the specification takes the one NetZoneImpl::get_bypass_route finds first (zones numbered from the end
+point upwards, pairs visited (0,0) (0,1) (1,0) (1,1) (0,2) (2,0) (1,2) (2,1) (2,2) ...: Hier!PairRank); the
+documentation gives no order.  Deliberate deviations from the code: a bypass keyed by the common ancestor itself (the code
+keeps that zone on a path of length 1) and bypasses declared by other zones than the common ancestor are not modelled (not
+generated).  Dedicated seeded platforms (4 in the quick tier, 40 in the thorough one; three levels, top zone Full / Floyd
+/ Star, children = Star zones with direct hosts and grand-children, or leaf zones): several bypass routes of the top zone
+between child <-> child, child <-> grand-child, grand-child <-> grand-child of two different branches, in both
+directions, competing for the same hosts, used by hosts at equal and at different depths, + bypass routes between two
+hosts of different zones, + bypass routes inside a zone (two hosts, two sub-zones).  They are built so that no recorded
+defect is on the way of a route that uses a zone bypass (gateways = routers that are direct members, no Dijkstra /
+Dragonfly zone, no zone route taken on the way up to a bypass gateway): such a route is either accepted or an unexplained
+VIOLATION.  The evidence counts (coverage.bypass_cases, flags given by TLC) the routes using a bypass: end points at
+different depths (source deeper / destination deeper), key zones at different depths, several candidates; the check
+fails (infrastructure error) when a run has no different-depth case in both directions.
+Finding of this extension (KNOWN_FINDINGS C24:host-bypass-across-zones, proposed/C24-host-bypass-across-zones.txt): a
+bypass route between two hosts that are not both direct members of the declaring zone is never used by the code; such a
+rejection is tagged only when TLC says both that the expected behaviour uses such a bypass ("hbypx") and that the returned
+route is accepted by the machine that ignores it (DEV=known, "hbypskip").
+
 Binding demonstrated (scratch worktree of /repo, quick tier, `VERIF_REPO=... VERIF_BUILD=...`):
   * all proposed fixes applied (proposed/fix-C24-interzone-and-bypass.diff, fix-C25-dijkstra.diff, fix-C26-dragonfly.diff):
     3597 routes asked, 3597 accepted, no rejection, no known finding (the specification raises no false alarm);
@@ -17,6 +39,12 @@ Binding demonstrated (scratch worktree of /repo, quick tier, `VERIF_REPO=... VER
     the destination: CAUGHT (exit 1; e.g. nested-stars t1 -> b2 returns lt1 bbT lA1, expected lt1 bbT lA1 bbA lBa xb2 lb2);
   * m2 NetZoneImpl::get_bypass_route never finds a bypass between zones: run started, stopped before it finished (machine
     overloaded): NOT EVALUATED;
+  * m3 NetZoneImpl::get_bypass_route stops its search at std::min(path_src.size(), path_dst.size()) instead of std::max
+    (a bypass between zones A and B ignored when the source is in a sub-zone of A and the destination directly in B, and
+    the converse): missed before the dedicated platforms existed, now CAUGHT (exit 1, seed 0: 20 VIOLATION lines, e.g.
+    platform b3 h1 -> h11, expected flags bypass bypdepth bypskew; 25 different-depth routes rejected, none tagged known);
+  * m4 NetZoneImpl::get_bypass_route looks (max, i) up before (i, max): CAUGHT on the dedicated platforms (seed 0: 5
+    routes of b3, b5, b8 with two competing bypasses rejected, accepted on the unchanged tree);
   * planned, not run: StarZone gives the gateway of the source as gateway of the destination; FullZone keeps the order of
     the links of a symmetrical route."""
 import random
@@ -24,32 +52,87 @@ import vlib
 import routing_common as R
 
 LEVEL = "model_checking"
-META = {'text': 'TLC validates, as behaviours of the forwarding machine spec/routing/Hier.tla (zone tree, per-zone routes with gateways, bypass routes, symmetrical routes; global route = up through gateways to the lowest common ancestor, the route or bypass declared there, down), the link list returned by Host::route_to for all host pairs of generated nested platforms (all zone kinds, <= 3 levels, <= 40 hosts) and gives the latency (exact sum of link latencies + Vivaldi terms) compared with the returned one; TLC also explores every behaviour of every pair on the same platforms (destination reached, no gateway met twice). Model checking level: the oracle is the explicit specification, evaluated by TLC, bound to the code by trace validation of every route asked.', 'note': 'Trusted: TLC, the driver route_driver (platform built through the C++ API from the same description as the JSON given to TLC), the syntactic mapping of link names to link numbers. Conformance holds for the platforms generated (seeded), not for all platforms. Rejections explained by the 7 defects recorded in KNOWN_FINDINGS.jsonl (classified with TLC: flags of the expected behaviours, acceptance by the machine with the recorded deviation) do not fail the check. Whether a bypass applies to end-point/gateway segments is left open.', 'technique': 'TLC model checking of Hier (HierMC) + TLC trace validation of Host::route_to results (HierTrace)'}
+META = {'text': 'TLC validates, as behaviours of the forwarding machine spec/routing/Hier.tla (zone tree, per-zone routes with gateways, bypass routes, symmetrical routes; global route = up through gateways to the lowest common ancestor, the route or bypass declared there, down), the link list returned by Host::route_to for all host pairs of generated nested platforms (all zone kinds, <= 3 levels, <= 40 hosts) and gives the latency (exact sum of link latencies + Vivaldi terms) compared with the returned one; TLC also explores every behaviour of every pair on the same platforms (destination reached, no gateway met twice). The bypass lookup is specified completely: a bypass for the two end points themselves, then every pair of zones of the two paths below the common ancestor at whatever depths, in the order of NetZoneImpl::get_bypass_route when several apply; dedicated platforms declare competing bypass routes between zones of different depths of two branches, in both directions, used by hosts at equal and different depths, and bypass routes between hosts of different zones (counted in coverage.bypass_cases from the flags TLC gives to the behaviours). Model checking level: the oracle is the explicit specification, evaluated by TLC, bound to the code by trace validation of every route asked.', 'note': 'Trusted: TLC, the driver route_driver (platform built through the C++ API from the same description as the JSON given to TLC), the syntactic mapping of link names to link numbers. Conformance holds for the platforms generated (seeded), not for all platforms. Rejections explained by the 8 defects recorded in KNOWN_FINDINGS.jsonl (classified with TLC: flags of the expected behaviours, acceptance by the machine with the recorded deviation) do not fail the check; the routes of the dedicated platforms that use a bypass between zones cannot fall in these classes. Whether a bypass applies to end-point/gateway segments is left open; the order among several applicable bypass routes is the one of the code (the documentation gives none); bypass routes keyed by the common ancestor itself or declared by another zone than the common ancestor are not modelled.', 'technique': 'TLC model checking of Hier (HierMC) + TLC trace validation of Host::route_to results (HierTrace)'}
 DRIVERS = R.DRIVERS
+
+
+# the documentation allows a bypass route "between any hosts, even if they are not in the same zone"
+# (Platform_routing.rst); the generated platforms declare some (see R.gen_bypass_depths)
+CROSS_HOST_BYPASS = True
 
 
 def run(ctx):
     quick = ctx.quick
     n = 14 if quick else 150
+    nb = 4 if quick else 40
     plats = [R.doc_example(), R.nested_star_example()]
+    # platforms dedicated to the lookup of the bypass routes: zones / end points at different depths
+    for k in range(1, nb + 1):
+        plats.append(R.gen_bypass_depths(random.Random("C24b/%d/%s/%d" % (ctx.seed, ctx.tier, k)), "b%d" % k,
+                                         cross_host=CROSS_HOST_BYPASS))
     k = 0
-    while len(plats) < n + 2:
+    while len(plats) < n + nb + 2:
         k += 1
         rng = random.Random("C24/%d/%s/%d" % (ctx.seed, ctx.tier, k))
         p = R.gen_hier(rng, "g%d" % k, max_hosts=24 if quick else 40) if rng.random() < 0.9 \
             else R.gen_cluster_parent(rng, "k%d" % k)
         if len(p.hosts()) <= 40 and 1 <= len(p.pairs) <= (700 if quick else 1700):
             plats.append(p)
-    R.run_check(ctx, plats, chunk=2 if quick else 6,
+    # the small platforms (the two permanent ones and the dedicated ones) share TLC runs
+    small = nb + 2
+    csz = 2 if quick else 6
+    chunks = [list(range(i, min(small, i + 6))) for i in range(0, small, 6)] + \
+             [list(range(i, min(len(plats), i + csz))) for i in range(small, len(plats), csz)]
+    allout = R.run_check(ctx, plats, chunk=chunks,
                 nontrivial=lambda plat, s, d: plat.zone_of_host(s) is not plat.zone_of_host(d),
-                rule="platforms = the documentation's example + 3 nested Star zones + seeded random nested platforms "
+                rule="platforms = the documentation's example + 3 nested Star zones + seeded random 3-level platforms "
+                     "dedicated to the bypass lookup (several bypass routes between zones of different depths below two "
+                     "children of the same zone, in both directions, + bypass routes between hosts of different zones) "
+                     "+ seeded random nested platforms "
                      "(zone kinds Full, Floyd, Dijkstra, DijkstraCache, Star, Vivaldi, Wifi, Empty, Torus, FatTree, "
                      "Dragonfly; <= 3 levels; gateways directly in their zone or anywhere below it; bypass routes); "
                      "cases = all ordered host pairs (+ defined self pairs); non-trivial = end points in different zones; "
                      "distinct by hash of (platform description, pair)")
+    # ---- what the bypass cases exercised: flags given by TLC to the accepting behaviour (accepted routes) or to the
+    # expected behaviours (rejected routes); the depths of the end points are read from the platform description
+    bc = {}
+
+    def add(key):
+        bc[key] = bc.get(key, 0) + 1
+
+    for o in allout:
+        plat = o["plat"]
+        for rec in o["res"]["routes"]:
+            if rec.get("p", 1) != 1 or rec["s"] == "?":
+                continue
+            acc = rec.get("acc")
+            fl = set(f for a in acc for f in a["fl"]) if acc else set(rec.get("exp_fl", []))
+            if "bypass" not in fl:
+                continue
+            verdict = "accepted" if acc else "rejected"
+            add("routes_with_bypass_" + verdict)
+            ds = len(R._zpath(plat, plat.np[plat.npi[rec["s"]] - 1]["z"]))
+            dd = len(R._zpath(plat, plat.np[plat.npi[rec["d"]] - 1]["z"]))
+            if "bypskew" in fl:
+                add("zone_bypass_end_points_at_different_depths_%s_%s" % ("src_deeper" if ds > dd else "dst_deeper", verdict))
+            if "bypdepth" in fl:
+                add("zone_bypass_between_zones_of_different_depths_" + verdict)
+            if "bypmany" in fl:
+                add("several_bypasses_apply_" + verdict)
+            if "hbypx" in fl:
+                add("host_bypass_across_zones_" + verdict)
+    ctx.cov["bypass_cases"] = bc
+    skew = [k for k in bc if k.startswith("zone_bypass_end_points_at_different_depths_")]
+    if not any("src_deeper" in k for k in skew) or not any("dst_deeper" in k for k in skew):
+        raise vlib.InfraError("the generated platforms have no route using a bypass between zones whose end points are at "
+                              "different depths in both directions: %s" % bc)
     ctx.assumptions += ["TLC explores and validates against the specification Hier; the binding to the code is the validation "
                         "of every route returned by Host::route_to on the generated platforms",
                         "link names are mapped to link numbers syntactically (cluster zones: from the numbers in their names)",
                         "limiter links have a zero latency (as those created by the XML loader); Vivaldi terms are compared "
                         "in binary64 with a relative tolerance of 1e-12, all other latencies exactly (dyadic values)",
-                        "whether a bypass route applies to the segments between an end point and a gateway is left open"]
+                        "whether a bypass route applies to the segments between an end point and a gateway is left open",
+                        "when several declared bypass routes apply to a pair, the specification takes the one that "
+                        "NetZoneImpl::get_bypass_route looks up first (the documentation gives no order); a bypass declared "
+                        "for the two end points themselves comes first; only the bypass routes declared by the lowest common "
+                        "ancestor zone are considered, and none keyed by that zone itself"]
